@@ -235,20 +235,29 @@ def rule_a_c_d(repo, chk, w):
                discr='resume-triple')
     chk.ob('c', on_done.ref, 'the waiter is resumed from exactly one site', len(resume) == 1, loc(on_done, on_done.node), discr='resume-once')
     # d: guard agreement over countdown states
-    inst_guard = _guard_of(w, installs[[v for v in tick_h][0]][2])
+    from sa import concrete
+    inst_stmt = installs[[v for v in tick_h][0]][2]
+    gw0 = w.cfg()
+    inst_nodes = [n for n in gw0.nodes if n.kind == 'stmt' and n.ast is inst_stmt]
+    need(inst_nodes, 'C06.d: the installation of the countdown handler is not a statement of waitEvent')
+
+    def runs_with(cfg, node, v):
+        """is *node* reached when the countdown stands at v?  (every other test is followed both ways)"""
+        return bool(concrete.envs_at(cfg, cfg.entry, {'$state.timeout': v}, lambda n: n is node))
+    inst_guard = _guard_of(w, inst_stmt)
     rem_nodes = [n for n in g.nodes if n.kind == 'stmt' and _removes(n.ast, is_tick)]
     chk.ob('a', on_done.ref, 'the done path removes the countdown handler', bool(rem_nodes), loc(on_done, on_done.node), discr='done:tick-removed')
     for rn in rem_nodes:
         rem_guard = _guard_of(on_done, rn.ast)
         rows = []
-        ok = inst_guard is not None and rem_guard is not None
-        if ok:
-            for v in (-1, 0, 1, 2, 5):
-                i = _eval_guard(inst_guard, v)
-                r_ = _eval_guard(rem_guard, v)
-                rows.append((v, i, r_))
-                if i != r_:
-                    ok = False
+        ok = True
+        for v in (-1, 0, 1, 2, 5):
+            i = runs_with(gw0, inst_nodes[0], v)
+            r_ = runs_with(g, rn, v)
+            rows.append((v, i, r_))
+            if i != r_:
+                ok = False
+        ok = ok and any(i for _v, i, _r in rows)
         chk.ob('d', on_done.ref, 'the countdown handler is removed on the done path exactly in the states in which it was installed '
                                  '(timeout values -1, 0, 1, 2, 5)', ok, loc(on_done, rn.ast),
                detail=f'install `{src(inst_guard) if inst_guard is not None else None}`, removal `{src(rem_guard) if rem_guard is not None else None}`; '
